@@ -42,4 +42,14 @@ b5-7 C04
 b5-8 C02
 b5-9 C01 C08
 b5-10 C10
+b6-1 C14 C07
+b6-2 C14 C07
+b6-3 C13 C01
+b6-4 C01 C18
+b6-5 C06
+b6-6 C06 C08
+b6-7 C13 C18
+b6-8 C07
+b6-9 C16
+b6-10 C12
 LIST
